@@ -102,8 +102,10 @@ def mk_child(it, i, cmask):
     c.attrs['level_mask'] = it.construct(it.prog.cls('LevelMask'), [K(cmask)], {})
     c.attrs['_hashes'] = ListV([Sym(f'H{i}@{k}', ty='bytes', n=32, key=('ch', i, k)) for k in range(n)])
     c.attrs['_depths'] = ListV([K(100 * (i + 1) + k) for k in range(n)])
-    c.attrs['_hash'] = c.attrs['_hashes'].items[-1]
-    return cm.reforge(it, c)
+    c.attrs['_hash'] = cm.cached(it, c, '_hashes').items[-1]
+    cm.reforge(it, c)
+    cm.shadow_lookups(it, c)
+    return c
 
 
 def ordinary_mask_union(run, prog, rule, where, thorough=False):
@@ -117,7 +119,7 @@ def ordinary_mask_union(run, prog, rule, where, thorough=False):
         run.evaluations += 1
         try:
             c = cm.new_cell(it, cm.tvm_bits(it, cm.data_bits(9)), kids)
-            h = c.attrs.get('_hash')
+            h = cm.cached(it, c, '_hash')
             parts = cm.flatten_bytes(list(h.a)) if isinstance(h, Term) and h.op == 'sha256' else None
             want = cm.spec_d1(2, False, ma | mb)
             lm = c.attrs['level_mask'].attrs.get('_m')
@@ -169,7 +171,7 @@ def check_state(run, prog, t, child_masks, own, where):
     if not okm:
         return None
     want = spec_levels(t, m)
-    hs, ds = c.attrs['_hashes'].items, c.attrs['_depths'].items
+    hs, ds = cm.cached(it, c, '_hashes').items, cm.cached(it, c, '_depths').items
     cons = f'Cell.calculate_hashes[{TNAME[t]},mask={m:03b}]'
     if len(hs) != len(want) or len(ds) != len(want):
         run.fail('D3', cons, f'{state}: {len(hs)} hashes / {len(ds)} depths stored, specification {len(want)}', where)
@@ -186,11 +188,11 @@ def check_state(run, prog, t, child_masks, own, where):
             exp += [('data',)] if t == ORD else [('k', x) for x in data]
         else:
             exp += [('is', hs[src[1]])]
-        cdepths = [kid.attrs['_depths'].items[child_index(cmk, cl)].v for kid, cmk in zip(kids, child_masks)]
+        cdepths = [cm.cached(it, kid, '_depths').items[child_index(cmk, cl)].v for kid, cmk in zip(kids, child_masks)]
         for d in cdepths:
             exp += [('k', d >> 8), ('k', d & 255)]
         for kid, cmk in zip(kids, child_masks):
-            exp += [('is', kid.attrs['_hashes'].items[child_index(cmk, cl)])]
+            exp += [('is', cm.cached(it, kid, '_hashes').items[child_index(cmk, cl)])]
         ok = len(parts) == len(exp)
         why = f'{len(parts)} stream items, specification {len(exp)}'
         if ok:
@@ -212,7 +214,7 @@ def check_state(run, prog, t, child_masks, own, where):
         if not (isinstance(ds[k], K) and ds[k].v == wd):
             run.fail('D3', cons, f'{state} level {li}: stored depth {vrepr(ds[k])}, specification {wd}', where)
             return None
-    top = c.attrs.get('_hash')
+    top = cm.cached(it, c, '_hash')
     if top is not hs[-1]:
         run.fail('D3', 'Cell.hash', f'{state}: .hash is not the highest-level hash', where)
         return None
@@ -223,7 +225,7 @@ def check_state(run, prog, t, child_masks, own, where):
 def check_lookups(run, prog, t, child_masks, own, built, where):
     c, it, kids, data, m = built
     state = f'{TNAME[t]}[mask={m:03b}]'
-    hs, ds = c.attrs['_hashes'].items, c.attrs['_depths'].items
+    hs, ds = cm.cached(it, c, '_hashes').items, cm.cached(it, c, '_depths').items
     for l in range(0, 4):
         h = popcount(apply(m, l))
         P = popcount(m)
